@@ -318,7 +318,7 @@ func (df *DataFile) readToBuf(blockID uint32, offset uint32, buf *bytebufferpool
 		// 对当前 chunk 解码, 仅允许访问当前 block 的有效数据
 		data, chunkType, err := DecodeChunk(block[offset:size])
 		if err != nil {
-			return chunkError(err, off+int64(size), fileSize)
+			return chunkError(err, block[offset:size], off+int64(size), fileSize)
 		}
 		buf.B = append(buf.B, data...)
 		// last chunk
@@ -410,7 +410,7 @@ func (reader *DataReader) next() ([]byte, *DataPos, error) {
 		// 对当前 chunk 解码, 仅允许访问当前 block 的有效数据
 		data, chunkType, err := DecodeChunk(reader.blockBuf[reader.offset:size])
 		if err != nil {
-			return nil, nil, chunkError(err, off+int64(size), fileSize)
+			return nil, nil, chunkError(err, reader.blockBuf[reader.offset:size], off+int64(size), fileSize)
 		}
 		res = append(res, data...)
 		cnt++
@@ -443,9 +443,19 @@ func (reader *DataReader) eof(cnt uint32) error {
 
 // chunk 超出其所在 block 的有效数据时:
 // 该 block 位于文件末尾则属于不完整的末尾写入, 返回 io.ErrUnexpectedEOF, 否则视为数据损坏
-func chunkError(err error, blockEnd int64, fileSize int64) error {
+// chunk 头部全为 0 时(合法 chunk 的校验和不可能为 0)说明到达 mmap 预分配但从未写入的区域,
+// 即进程崩溃后未能截断的文件的真实末尾, 同样返回 io.ErrUnexpectedEOF
+func chunkError(err error, chunk []byte, blockEnd int64, fileSize int64) error {
 	if err == io.ErrUnexpectedEOF && blockEnd < fileSize {
 		return ErrInvalidCRC
+	}
+	if err == ErrInvalidCRC && len(chunk) >= chunkHeaderSize {
+		for _, b := range chunk[:chunkHeaderSize] {
+			if b != 0 {
+				return err
+			}
+		}
+		return io.ErrUnexpectedEOF
 	}
 	return err
 }
